@@ -60,9 +60,12 @@ fn expected(t: &G) -> T {
         other => union(vec![inner(other), T::Null]),
     }
 }
+#[derive(Default)]
 struct P {
     c: Vec<char>,
     i: usize,
+    /// inside the schema declaration's namespace the references are local names
+    local: bool,
 }
 impl P {
     fn ws(&mut self) {
@@ -115,6 +118,7 @@ impl P {
             "" => Err(format!("unexpected text at {}: {:?}", start, self.c[start..].iter().take(20).collect::<String>())),
             "null" => Ok(T::Null),
             "undefined" => Ok(T::Undefined),
+            w if self.local && !w.contains('.') => Ok(T::Ref(w.to_string())),
             w => match w.strip_prefix("Schema.__OperationInput.") {
                 Some(n) => Ok(T::Ref(n.to_string())),
                 None => Err(format!("a type outside the input namespace: {w}")),
@@ -146,7 +150,7 @@ fn read_variables(ts: &str) -> Result<Vec<(String, bool, T)>, String> {
                 Some(k) => (k.to_string(), true),
                 None => (key.trim().to_string(), false),
             };
-            let mut p = P { c: ty.chars().collect(), i: 0 };
+            let mut p = P { c: ty.chars().collect(), i: 0, local: false };
             let t = p.union()?;
             p.ws();
             if p.i != p.c.len() {
@@ -207,7 +211,47 @@ fn cases(thorough: bool) -> Vec<Case> {
     }
     out
 }
-const SCHEMA: &str = "type Query { q: Int }\ninput In { req: Int! opt: String }\nenum Color { RED GREEN }\nscalar Date\n";
+const SCHEMA: &str = "type Query { q(x: X): Int }\ninput In { req: Int! opt: String }\nenum Color { RED GREEN }\nscalar Date\n";
+/// the same definitions as the fields of an input object type (`input X { v0: T0 = d0 .. }`; one field `only: Int` when empty)
+fn input_x(c: &Case) -> String {
+    if c.vars.is_empty() {
+        return "input X { only: Int }\n".to_string();
+    }
+    format!("input X {{ {} }}\n", c.vars.iter().map(|(n, t, d)| format!("{n}: {}{}", sdl(t), d.map(|d| format!(" = {d}")).unwrap_or_default())).collect::<Vec<_>>().join(" "))
+}
+/// properties of `export type <name> = { .. };` inside `export declare namespace __OperationInput { .. }`
+fn read_input_object(schema_ts: &str, name: &str) -> Result<Vec<(String, bool, T)>, String> {
+    let ns = schema_ts.find("export declare namespace __OperationInput {").ok_or("no __OperationInput namespace")?;
+    let body = &schema_ts[ns..];
+    let body = &body[..body.find("\n}\n").ok_or("unterminated namespace")?];
+    let marker = format!("export type {name} = {{");
+    let st = body.find(&marker).ok_or(format!("no declaration of {name}"))?;
+    let rest = &body[st + marker.len()..];
+    let end = rest.find("};").ok_or("unterminated declaration")?;
+    let mut out = vec![];
+    for line in rest[..end].split(';') {
+        let line = line.trim();
+        if line.is_empty() {
+            continue;
+        }
+        let line = line.strip_prefix("readonly ").ok_or(format!("a property that is not readonly: {line}"))?;
+        let (key, ty) = line.split_once(':').ok_or(format!("not a property: {line}"))?;
+        let (key, optional) = match key.trim().strip_suffix('?') {
+            Some(k) => (k.to_string(), true),
+            None => (key.trim().to_string(), false),
+        };
+        let ty = ty.replace("Schema.__OperationInput.", "");
+        // inside the namespace the references are local names
+        let mut p = P { c: ty.chars().collect(), i: 0, local: true };
+        let t = p.union()?;
+        p.ws();
+        if p.i != p.c.len() {
+            return Err(format!("trailing text in the type of {key}: {ty}"));
+        }
+        out.push((key, optional, t));
+    }
+    Ok(out)
+}
 
 fn main() {
     let args: Vec<String> = std::env::args().collect();
@@ -231,17 +275,19 @@ fn main() {
             "schema: ./schema/*.graphql\ndocuments: ./ops/*.graphql\nextensions:\n  nitrogql:\n    generate:\n      schemaOutput: ./out/schema.d.ts\n      type:\n{}        scalarTypes:\n          Date: string\n",
             c.allow_undefined.map(|b| format!("        allowUndefinedAsOptionalInput: {b}\n")).unwrap_or_default()
         );
-        let out = cli::run(&clip, dir, &[("graphql.config.yaml".into(), config), ("schema/s.graphql".into(), SCHEMA.to_string()), ("ops/q.graphql".into(), op_of(c)), ("out/.keep".into(), String::new())], "generate");
+        let out = cli::run(&clip, dir, &[("graphql.config.yaml".into(), config), ("schema/s.graphql".into(), format!("{SCHEMA}{}", input_x(c))), ("ops/q.graphql".into(), op_of(c)), ("out/.keep".into(), String::new())], "generate");
         let ts = std::fs::read_to_string(dir.join("ops/q.d.graphql.ts")).ok();
-        Some((out, ts))
+        let schema_ts = std::fs::read_to_string(dir.join("out/schema.d.ts")).ok();
+        Some((out, ts, schema_ts))
     });
     let _ = std::fs::remove_dir_all(&tmp);
     let mut failures = vec![];
     let mut per_family: BTreeMap<String, usize> = BTreeMap::new();
     let mut evaluations = 0;
     let mut checked_vars = 0usize;
+    let _ = P::default();
     for (i, (c, r)) in cases.iter().zip(results.iter()).enumerate() {
-        let Some((out, ts)) = r else { continue };
+        let Some((out, ts, schema_ts)) = r else { continue };
         evaluations += 1;
         let input = format!("[{}]\n{}", c.label, op_of(c));
         let mut fail = |sig: String, why: String, got: String| failures.push((i, sig, input.clone(), why, got));
@@ -293,6 +339,55 @@ fn main() {
         }
         if props.len() != c.vars.len() {
             fail("the Variables type has a property that is not a declared variable".into(), format!("{:?}", props.iter().map(|p| &p.0).collect::<Vec<_>>()), block);
+            continue;
+        }
+        // the same definitions as fields of `input X`: its declaration in the input namespace
+        let schema_ts = schema_ts.clone().unwrap_or_default();
+        let decl_block: String = schema_ts.find("export type X = {").map(|s| schema_ts[s..].chars().take(600).collect()).unwrap_or_default();
+        let fields = match read_input_object(&schema_ts, "X") {
+            Ok(f) => f,
+            Err(e) => {
+                fail("harness: the declaration of the input object is outside the TypeScript subset this reader understands".into(), e, decl_block);
+                continue;
+            }
+        };
+        let mut bad = false;
+        for (name, t, _default) in &c.vars {
+            let found: Vec<&(String, bool, T)> = fields.iter().filter(|(k, _, _)| k == name).collect();
+            if found.len() != 1 {
+                fail(format!("an input field has {} properties in the declaration of its input object", if found.is_empty() { "no".to_string() } else { found.len().to_string() }), format!("X.{name}"), decl_block.clone());
+                bad = true;
+                break;
+            }
+            let (_, optional, got) = found[0];
+            let nullable = !matches!(t, G::NonNull(_));
+            let want_optional = nullable && allow;
+            if *optional != want_optional {
+                fail(format!("a {} input field {} be omitted although allowUndefinedAsOptionalInput is {}", if nullable { "nullable" } else { "non-null" }, if *optional { "may" } else { "may not" }, if allow { "on" } else { "off" }), format!("X.{name}: {}", sdl(t)), decl_block.clone());
+                bad = true;
+                break;
+            }
+            let want = if want_optional { union(vec![expected(t), T::Undefined]) } else { expected(t) };
+            if *got != want {
+                fail(format!("the type of an input field in the declaration is not the one its GraphQL type maps to ({})", if nullable { "nullable field" } else { "non-null field" }), format!("X.{name}: {} should be {want:?}, is {got:?}", sdl(t)), decl_block.clone());
+                bad = true;
+                break;
+            }
+        }
+        if bad {
+            continue;
+        }
+        if !c.vars.is_empty() && fields.len() != c.vars.len() {
+            fail("the declaration of an input object has a property that is not a field".into(), format!("{:?}", fields.iter().map(|p| &p.0).collect::<Vec<_>>()), decl_block);
+            continue;
+        }
+        // enum: exactly the member literals
+        let ns = schema_ts.find("export declare namespace __OperationInput {").map(|s| &schema_ts[s..]).unwrap_or("");
+        let color: Option<&str> = ns.find("export type Color = ").map(|s| &ns[s + "export type Color = ".len()..]).and_then(|r| r.split(';').next());
+        let mut members: Vec<String> = color.unwrap_or("").split('|').map(|m| m.trim().to_string()).collect();
+        members.sort();
+        if members != vec!["\"GREEN\"".to_string(), "\"RED\"".to_string()] {
+            fail("the declaration of an enum in the input namespace is not the union of its member literals".into(), format!("Color = {color:?}"), String::new());
             continue;
         }
         *per_family.entry("agreed".into()).or_default() += 1;
